@@ -21,7 +21,8 @@ EXPLANATION = (
     " Also: (R5) the collector's marker handling fails closed (handler table of C07.R1); (R6) marker listings are complete and confined; "
     "(R7) the collector honours every fresh marker: each listed *.inflight entry that is not stale reaches "
     "protected.add(<target>), and the target of a marker whose payload names a path is that path."
-    " R1 requires the hook that runs to be the writer's OWN pre_write_hook parameter (a helper's defaulted None does not count).")
+    " R1 requires the hook that runs to be the writer's OWN pre_write_hook parameter (a helper's defaulted None does not count)."
+    " (R8) who-may-delete census (C09.R3); (R9) the collector's metadata read is never served from a cache (C10.R7); (R10) census of data-file production sites: marker registered first, failure propagates, one uuid per loop iteration.")
 NOT_DECIDED = "grace-period arithmetic versus run duration; the interleavings themselves"
 
 GC = "garbage_collector.GarbageCollector"
